@@ -28,10 +28,25 @@ pub enum WOp {
     /// query; `via`: 0 direct (&mut self), 1 through `&mut DB`, 2 through `Box<DB>`-style
     /// dynamic dispatch, 3 the `_ref` form where the stack has one; `fault`: fail the n-th
     /// bottom-level call of this query
-    Query { q: Q, via: u8, fault: Option<u64> },
+    /// `cold`: on stacks whose top layer is a CacheDB, storage / has_storage are asked
+    /// without loading the account first (CacheDB loads it itself; State documents the
+    /// load as a precondition, so there the account is always loaded first)
+    Query {
+        q: Q,
+        via: u8,
+        fault: Option<u64>,
+        #[serde(default)]
+        cold: bool,
+    },
     /// execute + commit a transaction through an Evm built on this stack
     Tx(TxSpec),
     SetBlock(u64),
+    /// direct mutation of a CacheDB on top of the stack (the `InMemoryDB` way of building
+    /// state): insert_account_storage / replace_account_storage / insert_account_info
+    /// (balance, nonce; code kept) on an account that exists
+    InsertStorage(Address, U256, U256),
+    ReplaceStorage(Address, Vec<(U256, U256)>),
+    InsertInfo(Address, U256, u64),
 }
 
 #[derive(Clone, Copy, Debug, Serialize, Deserialize, PartialEq)]
@@ -48,9 +63,13 @@ pub enum WStack {
     Components,
     /// CacheDB<DatabaseComponents<..>>
     CacheOverComponents,
+    /// CacheDB<EmptyDB> / State<EmptyDB> holding the world themselves (loaded through the
+    /// insert API); block hashes are EmptyDB's keccak(decimal number)
+    CacheEmpty,
+    StateEmpty,
 }
 
-const WSTACKS: &[WStack] = &[WStack::Cache, WStack::State, WStack::StateBundle, WStack::WrapRef, WStack::WrapRefCache, WStack::CacheCache, WStack::StateOverCache, WStack::BoxedState, WStack::Components, WStack::CacheOverComponents];
+const WSTACKS: &[WStack] = &[WStack::Cache, WStack::State, WStack::StateBundle, WStack::WrapRef, WStack::WrapRefCache, WStack::CacheCache, WStack::StateOverCache, WStack::BoxedState, WStack::Components, WStack::CacheOverComponents, WStack::CacheEmpty, WStack::StateEmpty];
 
 #[derive(Clone, Debug, Serialize, Deserialize)]
 pub struct WrapCase {
@@ -82,6 +101,11 @@ fn info_ans(i: Option<AccountInfo>) -> Ans {
     Ans::Info(i.map(|i| (i.balance, i.nonce, if i.code_hash == B256::ZERO { KECCAK_EMPTY } else { i.code_hash }, i.code.map(|c| c.original_bytes().to_vec()))))
 }
 
+thread_local! {
+    static INLINE_CODE_FIRST: std::cell::Cell<bool> = const { std::cell::Cell::new(false) };
+    static COLD_QUERY: std::cell::Cell<bool> = const { std::cell::Cell::new(false) };
+}
+
 fn run_query<D: Database>(db: &mut D, q: &Q, code_hash: B256) -> Result<Ans, String>
 where
     D::Error: std::fmt::Debug,
@@ -89,15 +113,25 @@ where
     let e = |x: D::Error| format!("{x:?}");
     Ok(match q {
         Q::Basic(a) => info_ans(db.basic(*a).map_err(e)?),
+        // accounts put into a State by `insert_account*` carry their code inline and the
+        // State does not index it by hash: read it the way the EVM's `load_code` does
+        Q::Code(a) if INLINE_CODE_FIRST.with(|c| c.get()) => match db.basic(*a).map_err(e)?.and_then(|i| i.code) {
+            Some(c) => Ans::Code(c.original_bytes().to_vec()),
+            None => Ans::Code(db.code_by_hash(code_hash).map_err(e)?.original_bytes().to_vec()),
+        },
         Q::Code(_) => Ans::Code(db.code_by_hash(code_hash).map_err(e)?.original_bytes().to_vec()),
         Q::Storage(a, k) => {
             // documented precondition of State::storage: the account was loaded before
-            db.basic(*a).map_err(e)?;
+            if !COLD_QUERY.with(|c| c.get()) {
+                db.basic(*a).map_err(e)?;
+            }
             Ans::Word(db.storage(*a, *k).map_err(e)?)
         }
         Q::BlockHash(n) => Ans::Hash(db.block_hash(*n).map_err(e)?),
         Q::HasStorage(a) => {
-            db.basic(*a).map_err(e)?;
+            if !COLD_QUERY.with(|c| c.get()) {
+                db.basic(*a).map_err(e)?;
+            }
             Ans::Bool(db.has_storage(*a).map_err(e)?)
         }
     })
@@ -153,6 +187,10 @@ impl WDb {
                             stats.inc("probe.ref_form_query");
                             return run_query_ref(&*c, q, h);
                         }
+                        AnyDb::CacheEmpty(c) => {
+                            stats.inc("probe.ref_form_query");
+                            return run_query_ref(&*c, q, h);
+                        }
                         AnyDb::WrapRefCache(w) => {
                             stats.inc("probe.ref_form_query");
                             return run_query_ref(&w.0, q, h);
@@ -204,7 +242,7 @@ impl Engine for WrapSim {
         let mut block = world.block.number;
         for _ in 0..n {
             let a = *rng.pick(&world.universe);
-            let op = match rng.below(16) {
+            let op = match rng.below(18) {
                 0 | 1 | 2 => Q::Basic(a),
                 3 | 4 => Q::Code(*rng.pick(&world.contracts)),
                 5 | 6 | 7 => Q::Storage(*rng.pick(&world.contracts), *rng.pick(&world.slots)),
@@ -231,13 +269,29 @@ impl Engine for WrapSim {
                     }
                     continue;
                 }
+                16 | 17 => {
+                    if matches!(stack, WStack::Cache | WStack::CacheCache | WStack::CacheEmpty | WStack::CacheOverComponents | WStack::WrapRefCache) {
+                        let c = *rng.pick(&world.universe);
+                        let val = |rng: &mut Rng| if rng.chance(1, 3) { U256::ZERO } else { U256::from(rng.range(1, 1000)) };
+                        ops.push(match rng.below(4) {
+                            0 | 1 => WOp::InsertStorage(c, *rng.pick(&world.slots), val(rng)),
+                            2 => {
+                                let n = rng.below(3);
+                                WOp::ReplaceStorage(c, (0..n).map(|_| (*rng.pick(&world.slots), val(rng))).collect())
+                            }
+                            _ => WOp::InsertInfo(c, U256::from(rng.below(1_000_000)), rng.below(5)),
+                        });
+                    }
+                    continue;
+                }
                 _ => {
                     block += *rng.pick(&[1u64, 1, 2, 100, 255, 256, 257, 1000]);
                     ops.push(WOp::SetBlock(block));
                     continue;
                 }
             };
-            ops.push(WOp::Query { q: op, via: rng.below(4) as u8, fault: if fault_run && rng.chance(1, 3) { Some(rng.below(3)) } else { None } });
+            let cache_top = matches!(stack, WStack::Cache | WStack::CacheCache | WStack::CacheOverComponents | WStack::CacheEmpty);
+            ops.push(WOp::Query { q: op, via: rng.below(4) as u8, fault: if fault_run && rng.chance(1, 3) { Some(rng.below(3)) } else { None }, cold: cache_top && rng.bool() });
         }
         WrapCase { world, stack, ops }
     }
@@ -248,6 +302,8 @@ impl Engine for WrapSim {
         let sc = spec.is_enabled_in(SpecId::SPURIOUS_DRAGON);
         let mut reference = w.disk.clone();
         let layer = format!("{:?}", case.stack);
+        let in_memory = matches!(case.stack, WStack::CacheEmpty | WStack::StateEmpty);
+        INLINE_CODE_FIRST.with(|c| c.set(case.stack == WStack::StateEmpty));
         let bottom;
         let mut db = match case.stack {
             WStack::Components | WStack::CacheOverComponents => {
@@ -277,6 +333,8 @@ impl Engine for WrapSim {
                     WStack::WrapRefCache => StackKind::WrapRefCache,
                     WStack::CacheCache => StackKind::CacheCache,
                     WStack::StateOverCache => StackKind::StateOverCache,
+                    WStack::CacheEmpty => StackKind::CacheEmpty,
+                    WStack::StateEmpty => StackKind::StateEmpty,
                     _ => StackKind::BoxedState,
                 };
                 let s = Sys::new(&cfg, w.disk.clone(), &w.block);
@@ -296,6 +354,57 @@ impl Engine for WrapSim {
                         s.set_block(&block);
                     }
                 }
+                WOp::InsertStorage(..) | WOp::ReplaceStorage(..) | WOp::InsertInfo(..) => {
+                    let a = match op {
+                        WOp::InsertStorage(a, ..) | WOp::ReplaceStorage(a, ..) | WOp::InsertInfo(a, ..) => *a,
+                        _ => unreachable!(),
+                    };
+                    // only accounts that exist (storage of a non-existing account has no meaning)
+                    // and only non-empty ones: an empty account may be known to the cache as
+                    // "not existing", and `insert_account_info` keeps that marker (the info it
+                    // stores stays invisible) - a quirk of an API the property does not cover
+                    if !reference.accounts.get(&a).map(|r| !r.is_empty()).unwrap_or(false) {
+                        continue;
+                    }
+                    bottom.disarm();
+                    let r = reference.accounts.get_mut(&a).unwrap();
+                    let info = AccountInfo { balance: r.balance, nonce: r.nonce, code_hash: r.code_hash(), code: if r.code.is_empty() { None } else { Some(to_bytecode(&r.code)) } };
+                    macro_rules! on_cache {
+                        ($c:expr) => {{
+                            let c = $c;
+                            match op {
+                                WOp::InsertStorage(_, k, v) => {
+                                    c.insert_account_storage(a, *k, *v).expect("no fault armed");
+                                    if v.is_zero() { r.storage.remove(k); } else { r.storage.insert(*k, *v); }
+                                }
+                                WOp::ReplaceStorage(_, kv) => {
+                                    c.replace_account_storage(a, kv.iter().cloned().collect()).expect("no fault armed");
+                                    r.storage = kv.iter().cloned().collect();
+                                    r.storage.retain(|_, v| !v.is_zero());
+                                }
+                                WOp::InsertInfo(_, b, n) => {
+                                    c.insert_account_info(a, AccountInfo { balance: *b, nonce: *n, ..info.clone() });
+                                    r.balance = *b;
+                                    r.nonce = *n;
+                                }
+                                _ => {}
+                            }
+                            stats.inc("ops.cache_insert_api");
+                            fp.s("insert");
+                        }};
+                    }
+                    match &mut db {
+                        WDb::Sys(s) => match &mut s.evm().context.evm.db {
+                            AnyDb::Cache(c) => on_cache!(c),
+                            AnyDb::CacheCache(c) => on_cache!(c),
+                            AnyDb::CacheEmpty(c) => on_cache!(c),
+                            AnyDb::WrapRefCache(w) => on_cache!(&mut w.0),
+                            _ => {}
+                        },
+                        WDb::CacheOverComponents(c) => on_cache!(c),
+                        _ => {}
+                    }
+                }
                 WOp::Tx(tx) => {
                     if let WDb::Sys(s) = &mut db {
                         bottom.disarm();
@@ -307,7 +416,11 @@ impl Engine for WrapSim {
                         }
                     }
                 }
-                WOp::Query { q, via, fault } => {
+                WOp::Query { q, via, fault, cold } => {
+                    COLD_QUERY.with(|c| c.set(*cold));
+                    if *cold {
+                        stats.inc("probe.cold_query_without_load");
+                    }
                     // expected answer from the reference
                     let (expect, h) = match q {
                         Q::Basic(a) => (
@@ -319,6 +432,7 @@ impl Engine for WrapSim {
                             _ => (Ans::Code(vec![]), KECCAK_EMPTY),
                         },
                         Q::Storage(a, k) => (Ans::Word(reference.storage(a, k)), B256::ZERO),
+                        Q::BlockHash(n) if in_memory => (Ans::Hash(revm::primitives::keccak256(n.to_string().as_bytes())), B256::ZERO),
                         Q::BlockHash(n) => (Ans::Hash(reference.block_hash_of(*n)), B256::ZERO),
                         Q::HasStorage(a) => (Ans::Bool(reference.has_storage(a)), B256::ZERO),
                     };
